@@ -16,6 +16,15 @@
 //!   c12_instance one <font file name> <trace.ndjson> <user value>...
 //!       one repository font at one user tuple (raw 16.16 values), for the replay of a finding.
 //!
+//! Generation-2 cases (`"gen": 2`): a general glyph list (nested composites in any glyph order, header
+//! boxes and side bearings as computed by the specification), fvar axes in design units with the record
+//! sizes / offsets / instance records of `lay`, avar segment maps, item variation stores with several
+//! sub-tables / LONG_WORDS / region index lists, delta-set index maps whose entry bytes come from the
+//! specification's encoder, MVAR with any value record size.  Generated instances are recorded with the
+//! normalised tuple the SPECIFICATION computes (`a.coords = a.norm`); the tuple instance() returned is
+//! `a.reported`.  Also recorded: header box of every written glyph, box of the written outline
+//! (components flattened), head box, union of the glyph boxes, MVAR fields without a value record.
+//!
 //! Events (judged by Trace_Variation): Glyph, Metric, Static, Failed.
 //! The harness decides nothing.
 use allsorts::binary::read::ReadScope;
@@ -257,10 +266,6 @@ fn outline_box(f: &RFont, gid: usize, depth: usize) -> Option<Option<[i32; 4]>> 
             Some(best)
         }
     }
-}
-
-fn outline_xmin(f: &RFont, gid: usize, depth: usize) -> Option<Option<i32>> {
-    outline_box(f, gid, depth).map(|b| b.map(|b| b[0]))
 }
 
 /// Header box of a glyph record as JSON ([] for an empty glyph).
